@@ -150,7 +150,7 @@ PROPS = {
     "C02": dict(units=["worker", "actionloop"], level="proof", assumptions=WORKER_ASSUME + ["wall-clock accuracy of tokio timers is not decided; 'arrive within the window' = received by the worker before the return"],
                 claim="throttle_collect proved by Verus: a non-urgent batch is not returned before first-event time + throttle, an urgent event is the last one received and is never filtered, the recv timeout never exceeds the rest of the window",
                 trusted="stand-ins in prelude/worker_env.rs (virtual clock: only blocking calls let time pass)"),
-    "C15": dict(units=["worker", "errhook", "sources", "fswatch"], level="proof", assumptions=WORKER_ASSUME + ["watch/unwatch failures (unit fswatch): the notify watcher is an abstract map whose calls may fail arbitrarily; notify_multi_path_errors is a stand-in yielding one runtime error per path the notify error names (at least one)"],
+    "C15": dict(units=["worker", "errhook", "sources", "fswatch", "maintask"], level="proof", assumptions=WORKER_ASSUME + ["watch/unwatch failures (unit fswatch): the notify watcher is an abstract map whose calls may fail arbitrarily; notify_multi_path_errors is a stand-in yielding one runtime error per path the notify error names (at least one)"],
                 claim="throttle_collect proved by Verus: every filter error is sent to the error channel exactly once, in order, the event is not batched and collection continues; only a closed error channel is critical. fs::worker proved: each failed watch/unwatch call is sent to the error channel once per named path, the other paths are still processed and the worker keeps running. error_hook / ErrorHook::{handle_crit,critical,elevate} proved: each received error handled exactly once, a raised critical is never ignored",
                 trusted="stand-ins in prelude/worker_env.rs, prelude/errhook_env.rs (error channel, OnceLock/Arc cell with ghost owner count, arbitrary error handler); Arc drops are not modelled (owner count at the time of handle_crit)"),
     "C18": dict(units=["command", "task"], level="proof",
@@ -194,13 +194,17 @@ PROPS = {
                              "clap parsing (conflicts_with between --restart and --on-busy-update) not decided"],
                 claim="Verus proves the on-busy block sends exactly the documented controls per (running, mode): idle -> Start; do-nothing -> nothing; signal -> the configured signal only; restart -> graceful restart with the stop signal/timeout; queue -> at most one follow-up task, which waits for the current run to end and then starts one run; --signal/-r select the mode; start-up event sent iff not --postpone (structural); non-overlap is C04's invariant (same obligations)",
                 trusted="stand-ins in prelude/cliaction_env.rs (Job handle as a control log, atomics), prelude/task_env.rs"),
-    "C08": dict(units=["actionloop", "latejoin", "cliaction", "task", "flag", "sources"], level="proof",
+    "C08": dict(units=["actionloop", "latejoin", "maintask", "cliaction", "task", "flag", "sources"], level="proof",
                 fallback=[replay_engine("lib", "graceful_quit_three_stubborn_jobs_within_grace", "C08.bounded.graceful_quit_three_stubborn_jobs_within_grace",
-                                        "3 jobs that ignore SIGTERM, quit_gracefully(Terminate, 1.5 s) on the real library: the main task ends within grace + 1.2 s, not before the grace, and no process survives")],
+                                        "3 jobs that ignore SIGTERM, quit_gracefully(Terminate, 1.5 s) on the real library: the main task ends within grace + 1.2 s, not before the grace, and no process survives"),
+                          replay_engine("lib", "graceful_quit_after_the_handler_deleted_the_job", "C08.bounded.graceful_quit_after_the_handler_deleted_the_job",
+                                        "a handler deletes its running job and asks for a graceful quit in the same action, on the real library: the main task ends within 10 s"),
+                          replay_engine("supervisor", "control_queued_behind_delete_resolves", "C08.bounded.control_queued_behind_delete_resolves",
+                                        "the ticket of a control queued behind delete() resolves when the job task ends (real supervisor, one history)")],
                 engines=[replay_engine("supervisor", "grouped_graceful_stop_leaves_no_member", "C08.assumption.no_group_member_outlives_a_graceful_stop",
                                        "after stop_with_signal + delete of a grouped command no member of its process group is left (one history, executed on the real supervisor with real processes)",
                                        label="ASSUMPTION VALIDATED BY EXECUTION (OS / process-wrap behaviour no contract here can express; one history): ")],
-                assumptions=TASK_ASSUME + ["action::worker is proved against stand-ins for LateJoinSet/HashMap/handler: a graceful quit spawns one task per held job (stop_with_signal(signal, grace) then delete().await: item quit_job_task), joins them, joins every job task, then returns; an abort returns at once. LateJoinSet itself (insert/spawn/join_all/abort_all/drop) is proved in unit latejoin over an abstract FuturesUnordered: dropping the set aborts every task in it, join_all waits for every task. That the main task then ends (watchexec.rs select/abort of the other workers), that an aborted job task drops its child and that kill_on_drop kills it is tokio/process-wrap behaviour: NOT decided",
+                assumptions=TASK_ASSUME + ["action::worker is proved against stand-ins for LateJoinSet/HashMap/handler: a graceful quit spawns one task per held job (stop_with_signal(signal, grace) then delete().await: item quit_job_task), joins them, joins every job task, then returns; an abort returns at once. LateJoinSet itself (insert/spawn/join_all/abort_all/drop) is proved in unit latejoin over an abstract FuturesUnordered: dropping the set aborts every task in it, join_all waits for every task. The main task's supervision loop is proved in unit maintask (ends as soon as the action worker returns, shuts the other workers down, ends with a worker's critical error). That an aborted job task drops its child and that kill_on_drop kills it is tokio/process-wrap behaviour: NOT decided",
                              "time bound: each quit task ends when its delete ticket resolves; that this happens within the grace periods is C06/C07/C09 (unit task: timers, tickets) composed by reading, not by one proof",
                              "process groups: signals and kills go to the group via process-wrap (command/conversions.rs wrappers: C18 decides the wrapping). Whether group members other than the leader outlive a graceful stop when the leader exits inside the grace period is OS/process-wrap behaviour outside any contract here: NOT decided (see DESIGN appendix, D9)",
                              "CLI: the quit closure and the signal gate are proved; clap parsing and the signal sources are C01's sources unit"],
@@ -231,7 +235,8 @@ PROPS["C07"]["thorough_engines"] = [_hist("supervisor", sc, "C07", w) for sc, w 
     ("try_graceful_restart_spawn_fails", "the try-restart ticket resolves when the respawn fails"),
     ("two_waiters_one_ticket", "every task awaiting a clone of one ticket is woken"),
     ("drop_last_handle_idle", "dropping the last handle of an idle job ends the job task cleanly"),
-    ("ticket_outlives_handles", "a ticket outliving all handles resolves")]]
+    ("ticket_outlives_handles", "a ticket outliving all handles resolves"),
+    ("control_queued_behind_delete_resolves", "the ticket of a control queued behind delete() resolves when the job task ends")]]
 PROPS["C06"]["thorough_engines"] = [_hist("supervisor", "try_graceful_restart_once", "C06", "a graceful try-restart past its deadline starts the replacement exactly once")]
 PROPS["C03"]["thorough_engines"] = [_hist("ignorefiles", sc, "C03", w) for sc, w in [
     ("prefix_sibling_negation", "a negation in test/.gitignore does not leak into tests/"),
